@@ -506,8 +506,6 @@ def pytest_sessionfinish(session, exitstatus):
                     used_changes += changes[flag]
                     approved_categories.add(flag)
 
-            report_problems(console)
-
             if used_changes:
                 cr = ChangeRecorder()
                 apply_all(used_changes, cr)
@@ -544,6 +542,9 @@ def pytest_sessionfinish(session, exitstatus):
 
                 for test_file, new_code in new_codes:
                     test_file.rewrite(new_code)
+
+            # reported here, because the formatter can also fail for the final code
+            report_problems(console)
 
             unused_externals = _find_external.unused_externals()
 
